@@ -56,6 +56,8 @@ def _r(u, prec):
     if k == "alt":
         s = _r(u["a"], 0) + "|" + _r(u["b"], 0)
         return "(?:" + s + ")" if prec >= 1 else s
+    if k == "ngrp":
+        return "(?P<" + u["name"] + ">" + _r(u["a"], 0) + ")"
     if k == "grp":
         inner = _r(u["a"], 0)
         return ("(" if u["cap"] else "(?:") + inner + ")"
@@ -107,3 +109,15 @@ def term_bytes(o):
     if o.get("crlf"):
         return b"\r\n"
     return b"\n"
+
+
+TCH = {1: b"$", 2: b"{", 3: b"}", 4: b"1", 5: b"2", 6: b"x", 7: b"-", 8: b"0", 9: b"a"}
+
+
+def tpl_bytes(tpl):
+    return b"".join(TCH[c] for c in tpl)
+
+
+def items_bytes(items):
+    """Output items of Printer.tla (["s", symbol] | ["t", template char]) -> bytes."""
+    return b"".join(SYM[v] if t == "s" else TCH[v] for t, v in items)
